@@ -244,6 +244,27 @@ func matrixExpect(m *minfo, status int, k *mkind, hdrEntry Entry, body []byte) E
 	return Expect{Verdict: "any"}
 }
 
+// matrixClass is the coarse input class of a matrix case used in finding
+// keys (one defect = a few keys per method); the distinct-case key is finer.
+func matrixClass(m *minfo, status int, k *mkind) string {
+	if status/100 != 2 {
+		return "http " + failClass(status)
+	}
+	switch {
+	case m.multistatus() && status != 207:
+		return "http 2xx-not-207"
+	case m.multistatus() && k.name == "multistatus":
+		return "207 + valid multistatus"
+	case m.multistatus():
+		return "207 + body that is not a multistatus"
+	case m.Kind == "getobj" && k.obj:
+		return "http 2xx + valid object"
+	case m.Kind == "getobj":
+		return "http 2xx + body that is not the object"
+	}
+	return "http 2xx"
+}
+
 func (g *gen) matrix() {
 	for mi := range methods {
 		m := &methods[mi]
@@ -273,8 +294,8 @@ func (g *gen) matrix() {
 				cs.setBody(body)
 				cs.Chunk = []int{0, 0, 1, 13}[idx%4]
 				cs.Exp = matrixExpect(m, status, k, he, body)
-				cs.Class = "http " + httpClass(status) + " + " + k.name
-				cs.DKey = m.Name + "|" + cs.Class
+				cs.Class = matrixClass(m, status, k)
+				cs.DKey = m.Name + "|http " + httpClass(status) + " + " + k.name
 				runCase(g.c, cs)
 			}
 		}
@@ -294,8 +315,8 @@ func (g *gen) matrix() {
 			cs.Header = k.header
 			cs.setBody(k.body)
 			cs.Exp = matrixExpect(m, status, k, Entry{}, k.body)
-			cs.Class = "http " + httpClass(status) + " + " + k.name + " (answer before upload)"
-			cs.DKey = m.Name + "|" + cs.Class
+			cs.Class = matrixClass(m, status, k) + " (answer before upload)"
+			cs.DKey = m.Name + "|http " + httpClass(status) + " + " + k.name + " (answer before upload)"
 			runCase(g.c, cs)
 		}
 	}
@@ -346,7 +367,7 @@ func (g *gen) valid() {
 				cs.setBody(body)
 				cs.Chunk = []int{0, 1, 5}[idx%3]
 				cs.Exp = Expect{Verdict: "ok", Data: &Out{Entries: []Entry{he}}}
-				cs.Class = "http 2xx-not-207 + valid object"
+				cs.Class = "http 2xx + valid object"
 				cs.DKey = fmt.Sprintf("%s|valid object|hdr=%d|ct=%d", m.Name, i%12, i%4)
 				runCase(g.c, cs)
 			}
@@ -632,6 +653,7 @@ func setText(space, local, text string) func(*xmltree.Node) bool {
 }
 
 type corruption struct {
+	group   string // coarse class used in finding keys
 	name    string
 	verdict string // expected verdict when the patch applies
 	family  string
@@ -784,9 +806,22 @@ func (g *gen) corrupt() {
 				cs.Header = [][2]string{{"Content-Type", xmlType(idx)}}
 				cs.setBody(xmltree.Render(root, lx))
 				cs.Exp = Expect{Verdict: co.verdict}
-				cs.Class = "207 + multistatus: " + co.name
+				grp := co.group
+				if grp == "" {
+					switch {
+					case strings.Contains(co.name, "status"):
+						grp = "uninterpretable status line"
+					case strings.Contains(co.name, "-data") || strings.Contains(co.name, "embedded"):
+						grp = "uninterpretable embedded object"
+					case co.verdict == "err":
+						grp = "uninterpretable property value"
+					default:
+						grp = "DTD-invalid structure"
+					}
+				}
+				cs.Class = "207 + multistatus with " + grp
 				cs.Family = co.family
-				cs.DKey = m.Name + "|" + cs.Class
+				cs.DKey = m.Name + "|207 + multistatus: " + co.name
 				runCase(g.c, cs)
 			}
 		}
@@ -807,9 +842,9 @@ func (g *gen) corrupt() {
 			cs.Header = [][2]string{{"Content-Type", objType(m.Fam)}}
 			cs.setBody([]byte(text))
 			cs.Exp = Expect{Verdict: verdict}
-			cs.Class = "http 2xx + object: " + bname
+			cs.Class = "http 2xx + malformed object"
 			cs.Family = "malformed " + famName(m.Fam)
-			cs.DKey = m.Name + "|" + cs.Class
+			cs.DKey = m.Name + "|http 2xx + object: " + bname
 			runCase(g.c, cs)
 		}
 		// right body, wrong or unparsable Content-Type
@@ -974,8 +1009,8 @@ func (g *gen) headers() {
 				cs.Header = append(cs.Header, [2]string{"DAV", d})
 			}
 			cs.Exp = Expect{Verdict: v.verdict}
-			cs.Class = "http 2xx + " + v.name
-			cs.DKey = m.Name + "|" + cs.Class
+			cs.Class = "http 2xx + DAV header variants"
+			cs.DKey = m.Name + "|http 2xx + " + v.name
 			runCase(g.c, cs)
 		}
 	}
@@ -1124,8 +1159,17 @@ func (g *gen) oversized() {
 				cs.Header = append(cs.Header, [2]string{"DAV", "1, addressbook"})
 			}
 			cs.Exp = b.exp
-			cs.Class = "http " + httpClass(b.status) + " + 8 MiB " + b.kind
-			cs.DKey = m.Name + "|" + cs.Class
+			switch {
+			case b.status/100 != 2:
+				cs.Class = "http " + failClass(b.status)
+			case b.kind == "multistatus":
+				cs.Class = "207 + valid multistatus"
+			case b.kind == "object":
+				cs.Class = "http 2xx + valid object"
+			default:
+				cs.Class = "http 2xx"
+			}
+			cs.DKey = m.Name + "|http " + httpClass(b.status) + " + 8 MiB " + b.kind
 			runCase(g.c, cs)
 			cs.body = nil
 		}
